@@ -459,6 +459,17 @@ CLAIMS["C01"]["text"] += (" Translator tie (harness/py2coq_exec.py): the three d
                           "Match.walk, tied by the correspondence.")
 
 
+def _shock_sweep_c14(seed, tier, cov):
+    import translated
+    return translated.shock_sweep_c14(seed, tier, cov)
+
+
+CLAIMS["C14"]["extra_checks"] = _shock_sweep_c14
+CLAIMS["C14"]["text"] += (" Market.change_fundamental_price is translated too (the new level = current level x scale, stored in the market's series and in Fundamentals.prices, and the "
+                          "regeneration point moved to the current time unconditionally - the model's Fund.shock); a directed search calls the real method at every distance from the "
+                          "point up to which the fundamentals were already generated (zero drift and volatility: every later value must continue from the new level).")
+
+
 def _index_tie():
     import translated
     return translated.index_tie()
